@@ -11,6 +11,8 @@
         A       crypto_aesctr_alloc                        N<nonce> init2(stream, current key, nonce)
         R<nonce> init2(stream, NULL, nonce)                F        crypto_aesctr_free
         s<data> stream, separate buffers   S<data> stream in place   B<nonce>:<data> crypto_aesctr_buf
+        J<pos>  WHITE-BOX, not a library call: stream->bytectr = pos (hex, multiple of 16), only
+                right after I/N/R; the object then is a stream positioned at block pos/16
    prefix "spec": FIPS-197 Cipher and ctr_spec on the concatenated data of each (key, nonce) epoch;
    prefix "slow": like spec for block lines, with the S-box computed as inverse + affine map. *)
 let mode = if Array.length Sys.argv > 1 then Sys.argv.(1) else "aesni"
@@ -50,6 +52,7 @@ let run_model toks =
     | 'N' -> (match !cur, !stream with Some e, Some (_, s) -> stream := Some (Some e, x_init2 (nonce_of arg) s) | _ -> failwith "nostream")
     | 'R' -> (match !stream with Some (Some e, s) -> stream := Some (Some e, x_init2 (nonce_of arg) s) | _ -> failwith "nostream")
     | 'F' -> stream := None
+    | 'J' -> (match !stream with Some (e, s) -> stream := Some (e, x_seek (n_of_hex arg) s) | None -> failwith "nostream")
     | 's' | 'S' -> (match !stream with
         | Some (Some e, s) ->
           let (s', o) = unres (x_stream_cfg e hw s (bytes_of_hex arg)) in
@@ -66,21 +69,24 @@ let run_model toks =
 (* ---- the spec: per (key, nonce) epoch, ctr_spec of the concatenation, cut back into the calls *)
 let run_spec toks =
   let cur = ref None and stream = ref None in   (* stream: (e option, nonce, chunks rev, slots rev) *)
-  let results = Hashtbl.create 16 and ord = ref 0 in
+  let results = Hashtbl.create 16 and ord = ref 0 and block0 = ref N0 in
   let flush () = match !stream with
     | Some (Some e, nonce, chunks, slots) when chunks <> [] ->
       let chunks = List.rev chunks and slots = List.rev slots in
-      let out = x_ctr_spec e nonce (List.concat chunks) in
+      let out = x_ctr_spec_from e nonce !block0 (List.concat chunks) in
       List.iter2 (fun slot o -> Hashtbl.replace results slot o) slots (split_sizes (List.map List.length chunks) out)
     | _ -> () in
   List.iter (fun t ->
     let arg = tail t in
     match t.[0] with
     | 'K' -> cur := Some (spec_e (bytes_of_hex arg))
-    | 'A' -> flush (); stream := Some (None, N0, [], [])
-    | 'I' | 'N' -> flush (); stream := Some (!cur, nonce_of arg, [], [])
-    | 'R' -> flush (); (match !stream with Some (e, _, _, _) -> stream := Some (e, nonce_of arg, [], []) | None -> failwith "nostream")
+    | 'A' -> flush (); block0 := N0; stream := Some (None, N0, [], [])
+    | 'I' | 'N' -> flush (); block0 := N0; stream := Some (!cur, nonce_of arg, [], [])
+    | 'R' -> flush (); block0 := N0; (match !stream with Some (e, _, _, _) -> stream := Some (e, nonce_of arg, [], []) | None -> failwith "nostream")
     | 'F' -> flush (); stream := None
+    | 'J' -> (match !stream with
+        | Some (_, _, [], _) -> block0 := n_of_hex (String.sub arg 0 (String.length arg - 1))   (* pos / 16 *)
+        | _ -> failwith "seek-after-data")
     | 's' | 'S' -> (match !stream with
         | Some (e, n, chunks, slots) -> stream := Some (e, n, bytes_of_hex arg :: chunks, !ord :: slots); incr ord
         | None -> failwith "nostream")
@@ -127,6 +133,7 @@ let run_wipe_ctr toks =
         | Some (Some e, s) -> let (s', _) = unres (x_stream_cfg e hw s (bytes_of_hex arg)) in stream := Some (Some e, s')
         | _ -> failwith "nostream")
     | 'B' -> ()
+    | 'J' -> (match !stream with Some (e, s) -> stream := Some (e, x_seek (n_of_hex arg) s) | None -> failwith "nostream")
     | _ -> failwith "tok") toks;
   (match !stream with Some (_, s) -> ev := List.rev_append (ctr_free s) !ev | None -> ());
   List.iter (fun k -> ev := List.rev_append (key_free k) !ev) (List.rev !keys);
